@@ -4,6 +4,7 @@ C11 — emulated compound operations.  Property statements proved so far; the UL
 -/
 import FAVerif.Models.Compound
 import FAVerif.Lemmas.NextProg
+import FAVerif.Lemmas.IsPow2
 import FAVerif.Generated.C11
 
 namespace FAVerif.Props.C11
@@ -47,6 +48,35 @@ theorem neighbours (q : QFmt) (k e : ℤ) (z : ℚ) (hz : Rep q z) :
     (2 ^ (q.p - 1) ≤ k → (k : ℚ) * 2 ^ e < z → ((k : ℚ) + 1) * 2 ^ e ≤ z) ∧
     (2 ^ (q.p - 1) < k → z < (k : ℚ) * 2 ^ e → z ≤ ((k : ℚ) - 1) * 2 ^ e) :=
   ⟨fun h1 h2 => succ_is_least h1 hz h2, fun h1 h2 => pred_is_greatest h1 hz h2⟩
+
+/-- **is_power_of_two is exact, for every precision** (p = n+1 ≥ 2, any emin, ANY round-to-nearest):
+with Q = 2^(p-1), P = Q + 1, for x = ±k·2^e written with a normalised significand
+(2^(p-1) ≤ k < 2^p; this covers all normal numbers and, with e + p − 1 ≥ emin, all subnormals),
+D = RN(RN(P·x) − RN(Q·x)) equals x if and only if x is a power of two (k = 2^(p-1)). -/
+theorem is_power_of_two_all_precisions (q : QFmt) (r : ℚ → ℚ) (hr : IsRN q r) (n : ℕ) (hn : q.p = n + 1)
+    (k e : ℤ) (hk1 : 2 ^ n ≤ k) (hk2 : k < 2 ^ q.p) (he : q.emin ≤ e + n) :
+    (r (r ((2 ^ n + 1) * ((k : ℚ) * 2 ^ e)) - r (2 ^ n * ((k : ℚ) * 2 ^ e))) = (k : ℚ) * 2 ^ e ↔ k = 2 ^ n) ∧
+    (r (r ((2 ^ n + 1) * (-((k : ℚ) * 2 ^ e))) - r (2 ^ n * (-((k : ℚ) * 2 ^ e)))) = -((k : ℚ) * 2 ^ e) ↔ k = 2 ^ n) := by
+  refine ⟨is_pow2_pos hr hn hk1 hk2 he, ?_⟩
+  have h := is_pow2_pos (isRN_neg hr) hn hk1 hk2 he
+  beta_reduce at h
+  rw [← h]
+  constructor
+  · intro hh
+    have e1 : (2 ^ n + 1) * (-((k : ℚ) * 2 ^ e)) = -((2 ^ n + 1) * ((k : ℚ) * 2 ^ e)) := by ring
+    have e2 : (2 : ℚ) ^ n * (-((k : ℚ) * 2 ^ e)) = -(2 ^ n * ((k : ℚ) * 2 ^ e)) := by ring
+    rw [e1, e2] at hh
+    have e3 : -(-r (-((2 ^ n + 1) * ((k : ℚ) * 2 ^ e))) - -r (-(2 ^ n * ((k : ℚ) * 2 ^ e)))) =
+        r (-((2 ^ n + 1) * ((k : ℚ) * 2 ^ e))) - r (-(2 ^ n * ((k : ℚ) * 2 ^ e))) := by ring
+    rw [e3, hh]; ring
+  · intro hh
+    have e1 : (2 ^ n + 1) * (-((k : ℚ) * 2 ^ e)) = -((2 ^ n + 1) * ((k : ℚ) * 2 ^ e)) := by ring
+    have e2 : (2 : ℚ) ^ n * (-((k : ℚ) * 2 ^ e)) = -(2 ^ n * ((k : ℚ) * 2 ^ e)) := by ring
+    rw [e1, e2]
+    have e3 : -(-r (-((2 ^ n + 1) * ((k : ℚ) * 2 ^ e))) - -r (-(2 ^ n * ((k : ℚ) * 2 ^ e)))) =
+        r (-((2 ^ n + 1) * ((k : ℚ) * 2 ^ e))) - r (-(2 ^ n * ((k : ℚ) * 2 ^ e))) := by ring
+    rw [e3] at hh
+    linarith
 
 /-- **On the regenerated program** (float32 instance; float16/64 have the same nodes by `ties_next`):
 for positive normal x = k·2^e the traced `next(x, up=True)` evaluates, over ℚ with any
